@@ -9,6 +9,10 @@ import (
 // Engine is the compiled query. It is able to evaluate the entire query.
 type Engine struct {
 	Statements []*Statement
+
+	// variableDepth is the number of variables that are currently being
+	// evaluated. See VariableExpr.
+	variableDepth int
 }
 
 // Evaluate executes all of the expressions and returns the final result.
